@@ -229,12 +229,83 @@ func (n *Node) readBack(b *Build, typ string, rec reg.Record) (val.Value, bridge
 
 const (
 	baseAlloc = 256 << 10
-	baseSteps = 1 << 16
+	baseSteps = 1 << 22
 )
 
-// allocFactor bounds Go bytes allocated per wire byte for a schema: twice the largest
-// (Go element size / minimal wire size) over container element types, at least 64.
-func allocFactor(s *schema.Schema) int64 { return 256 }
+// allocFactor bounds the Go bytes requested through make() per wire byte for a schema:
+// twice the largest (Go element size / minimal wire size of the element) over every
+// array and map type of the schema, and at least 16. Only make() sites are charged.
+var factorCache = map[*schema.Schema]int64{}
+
+func goSize(s *schema.Schema, t schema.Type, depth int) int64 {
+	switch {
+	case t.Array != nil:
+		return 24
+	case t.MapV != nil:
+		return 8
+	case t.Prim == "string":
+		return 16
+	case t.Prim == "date":
+		return 24
+	case t.Prim != "":
+		return int64(schema.PrimSize(t.Prim))
+	}
+	d := s.Lookup(t.Named)
+	if d == nil || depth > 6 {
+		return 8
+	}
+	switch d.Kind {
+	case schema.KEnum:
+		return int64(schema.PrimSize(d.BaseType()))
+	case schema.KMessage:
+		return 8 * int64(len(d.Fields)+1)
+	case schema.KUnion:
+		return 8 * int64(len(d.Branches)+1)
+	}
+	var n int64
+	for _, f := range d.Fields {
+		n += goSize(s, f.Type, depth+1) + 7
+	}
+	return n + 8
+}
+
+func allocFactor(s *schema.Schema) int64 {
+	if f, ok := factorCache[s]; ok {
+		return f
+	}
+	best := int64(8)
+	var walk func(t schema.Type)
+	walk = func(t schema.Type) {
+		switch {
+		case t.Array != nil:
+			w := int64(s.MinWire(*t.Array))
+			if w < 1 {
+				w = 1
+			}
+			if r := (goSize(s, *t.Array, 0) + w - 1) / w; r > best {
+				best = r
+			}
+			walk(*t.Array)
+		case t.MapV != nil:
+			w := int64(s.MinWire(schema.Type{Prim: t.MapK}) + s.MinWire(*t.MapV))
+			if w < 1 {
+				w = 1
+			}
+			g := goSize(s, schema.Type{Prim: t.MapK}, 0) + goSize(s, *t.MapV, 0) + 16
+			if r := (g + w - 1) / w; r > best {
+				best = r
+			}
+			walk(*t.MapV)
+		}
+	}
+	for _, d := range s.Records() {
+		for _, f := range d.Fields {
+			walk(f.Type)
+		}
+	}
+	factorCache[s] = 2 * best
+	return 2 * best
+}
 
 func budgetsFor(s *schema.Schema, wireLen int) (alloc, steps int64) {
 	l := int64(wireLen)
@@ -521,7 +592,7 @@ func refRoundTrip(s *schema.Schema, typ string, data []byte, want val.Value) str
 	if used != len(data) {
 		return fmt.Sprintf("reference decoder consumed %d of %d bytes", used, len(data))
 	}
-	if d := val.Diff(s, t, want, val.Normalise(s, t, got)); d != "" {
+	if d := val.Diff(s, t, want, val.Canon(s, t, got)); d != "" {
 		return "reference decoding differs from the value sent: " + d
 	}
 	re := refcodec.Encode(s, t, got)
